@@ -104,4 +104,37 @@ theorem lzma1_exec_roundtrip (p : Props) (hp : PropsOk p) (dictSize : Nat) (hd :
   exact lzmaDecode_spec_bytes p hp dictSize hd _ _ syms hdesc res.out hspec outCap
     (by rw [toList_eq, Array.length_toList, ByteArray.size_data]; exact hcap)
 
+/-- the window after `n` more bytes (as in Lemmas/Lzma2ExecChunk.lean) -/
+theorem win_add' (buf : ByteArray) (i n : Nat) :
+    win buf (i + n) = (((hl buf).drop i).take n).reverse ++ win buf i := by
+  simp only [win]
+  rw [← List.reverse_append]
+  congr 1
+  rw [List.take_add]
+
+/-- (3, decoding part) MicroLZMA: the executable encoder model with an output-size limit reports `consumed ≤ |data|`, and
+    its output, decoded by the executable LZMA1 decoder model with that known size and no end marker, is exactly the
+    first `consumed` bytes of the data; LZMA_STREAM_END, every output byte consumed. -/
+theorem micro_exec_prefix (p : Props) (hp : PropsOk p) (dictSize : Nat) (hd : dictSize ≤ 4294967295) (limit : Nat)
+    (hlim : limit ≠ 0) (preset data : ByteArray) (tr : Array TraceRec) (res : EncResult)
+    (h : lzma1Encode p dictSize false limit (preset ++ data) preset.size tr = .ok res) (outCap : Nat)
+    (hcap : res.consumed < outCap) :
+    res.consumed ≤ data.size ∧
+    lzmaDecode p dictSize (some res.consumed) false res.out preset.toList outCap =
+      { ret := .streamEnd, out := data.toList.take res.consumed, consumed := res.out.length } := by
+  have hsz : (preset ++ data).size = preset.size + data.size := ByteArray.size_append
+  obtain ⟨syms, ops, posF, stF, henc, hout, hle⟩ :=
+    lzma1Encode_sound_limit p dictSize limit hlim (preset ++ data) preset.size tr res (by omega) h
+  have hc : res.consumed ≤ data.size := by omega
+  refine ⟨hc, ?_⟩
+  have hall : hl (preset ++ data) = hl preset ++ hl data := by simp only [hl, ByteArray.toList_data_append]
+  rw [win_add', win_append_left, hall, List.drop_left' (hl_length preset)] at henc
+  have hlen : ((hl data).take res.consumed).length = res.consumed := by
+    rw [List.length_take, hl_length]; omega
+  have := lzmaDecode_known_size p hp dictSize hd (hl preset) ((hl data).take res.consumed) syms ops posF stF henc res.out
+    hout.symm outCap (by rw [hlen]; exact hcap)
+  rw [hlen] at this
+  rw [toList_eq, toList_eq]
+  exact this
+
 end XzVerif.LzmaExec
